@@ -2,8 +2,9 @@
 From mathcomp Require Import all_ssreflect all_algebra.
 From mathcomp Require Import complex.
 Require Import ZArith.
-Require Import MPSV.Hess.HessModel MPSV.Hess.HessDet MPSV.Hess.HessScale MPSV.Hess.HessApriori
-               MPSV.Hess.HessErrVec MPSV.Hess.HessGauss MPSV.Hess.HessTie MPSV.Hess.HessStd.
+Require Import MPSV.Hess.HessModel MPSV.Hess.HessModelM MPSV.Hess.HessDet MPSV.Hess.HessScale MPSV.Hess.HessApriori
+               MPSV.Hess.HessErrVec MPSV.Hess.HessGauss MPSV.Hess.HessTie MPSV.Hess.HessStd
+               MPSV.Hess.HessMul3 MPSV.Hess.HessErrHead.
 Require MPSV.Hess.HessB64.
 
 Set Implicit Arguments.
@@ -141,7 +142,9 @@ Theorem C20_modup_sound :
 Proof. exact: modup_sound. Qed.
 Print Assumptions C20_modup_sound.
 
-(* Multiprecision variant: the returned error bound (error vector `verrors` as coded, HessModel.mhess_rec)
+(* [Historical: the function BEFORE the fix 36ad797a (no initial error vector); the function as it is at HEAD is
+   covered by C20_mhess_head_error_sound below, without the exactness hypotheses.]
+   Multiprecision variant: the returned error bound (error vector `verrors` as coded, HessModel.mhess_rec)
    dominates the distance between the computed value and the exact recurrence, in the same rounding
    model.  PARTIAL: (1) the bound arithmetic, done with rounded rdpe_t operations in the code, is idealised
    as exact arithmetic in F; (2) the hypotheses em <= eps, es <= eps (1 - es) relate the code's
@@ -234,3 +237,99 @@ Print Assumptions C20_hess_apriori_pow.
 Theorem C20_binary64_standard_model : HessB64.b64_standard_model_stmt.
 Proof. exact: HessB64.b64_standard_model. Qed.
 Print Assumptions C20_binary64_standard_model.
+
+(* ---- mpc_mul: the constant of the m variant DERIVED ----------------------------------------------------
+   mpc_mul (mpc.c) is the 3-multiplication sequence s1 = a-b; s2 = c+d; s1 = s1*s2; s2 = a*d; s3 = b*c;
+   Re = (s1 - s2) + s3; Im = s2 + s3, every mpf operation rounded by [rnd].  Under the TRUNCATING standard model
+   of GMP's mpf (|rnd t - t| <= u |t| and |rnd t| <= |t|; no exponent overflow) the normwise error is at most
+   14 u |x| |y|.  (Componentwise: Re within u (5 |a-b||c+d| + 3 |ad| + 2 |bc|), Im within 2 u (|ad| + |bc|).) *)
+Theorem C20_mpc_mul3_err :
+  forall (R : rcfType) (u : R) (rnd : R -> R),
+    0 <= u -> (forall t, `|rnd t - t| <= u * `|t|) -> (forall t, `|rnd t| <= `|t|) ->
+  forall x y : R[i], `|mpc_fmul rnd x y - x * y| <= ((14%:R * u)%:C)%C * (`|x| * `|y|).
+Proof. move=> R u rnd u0 re rl x y; exact: mpc_fmul_err. Qed.
+Print Assumptions C20_mpc_mul3_err.
+
+Example C20_mpc_fmul_unfold :
+  forall (R : rcfType) (rnd : R -> R) (a b c d : R),
+    mpc_fmul rnd (a +i* b)%C (c +i* d)%C
+    = (rnd (rnd (rnd (rnd (a - b) * rnd (c + d)) - rnd (a * d)) + rnd (b * c)) +i* rnd (rnd (a * d) + rnd (b * c)))%C.
+Proof. by []. Qed.
+
+(* hence the a-priori bound of the m variant with C = 16 = 14 + 2 (C_M of checks/C20.py), no assumed constant:
+   [mpc_model] = (componentwise rounded mpc_sub, mpc_fmul) is a round_model with es = u, em = 14 u *)
+Theorem C20_mhess_apriori_mul3 :
+  forall (R : rcfType) (u : R) (rnd : R -> R) (u_ge0 : 0 <= u)
+         (rnd_err : forall t, `|rnd t - t| <= u * `|t|) (rnd_le : forall t, `|rnd t| <= `|t|)
+         (Hl Al : seq R[i]) (m : nat) (s sa : R[i]),
+    (forall k, `|nth 0 Hl k| <= nth 0 Al k) -> `|s| <= sa ->
+    `|hess_rec (flops (mpc_model u_ge0 rnd_err rnd_le)) Hl m.+1 s - hess_rec (rops _) Hl m.+1 s|
+    <= (((1 + u) ^+ (16 * m.+1) - 1)%:C)%C * hess_rec (aops _) Al m.+1 sa.
+Proof. move=> R u rnd u0 re rl Hl Al m s sa; exact: mhess_apriori_mul3. Qed.
+Print Assumptions C20_mhess_apriori_mul3.
+
+(* ---- m variant AT HEAD: the returned error bound dominates the true error, every order -------------------
+   Model: HessModelM.mhess_head = the function as it is now:
+     matrix[i][j] = (i == j && !mpc_eq_zero (shift)) ? mpc_sub (H[i][j], shift) : mpc_set (H[i][j])   (ROUNDED copy)
+     verrors[i] = mpc_rmod (matrix[i][n-1]) * eps                                                     (initial vector)
+     the loop with its error vector, the bound arithmetic eadd / emul / nrm (rdpe_add, rdpe_mul, mpc_rmod) ROUNDED:
+     each operation is only assumed to return at least q times the exact value (0 <= q <= 1).
+   M is the rounding model of mpc_sub / mpc_mul (C20_mpc_mul3_err: es = u, em = 14 u), fset = mpc_set with the
+   same relative error es; the inputs Hl, s are arbitrary ring elements (NOT assumed representable at wp bits).
+   Hypotheses relating the mpf unit roundoff to eps = 2^(1-wp):
+       es <= kap (1 - es)      kap = rounding error relative to the COMPUTED value
+       p (1 + kap) <= q^7      p = what one pass of the loop may lose (7 bound operations deep, drift q each)
+       em + kap <= p^n eps     the slack between u (GMP keeps a guard limb: u ~ 2^-(wp+63)) and eps pays for the drift
+   With u = eps the last one fails (one eps per product against em = 14 u): the statement is about GMP's actual
+   precision, which is what the code relies on.  Not covered: exponent overflow of mpf / rdpe, and the standard
+   models themselves (C12 / C13). *)
+Theorem C20_mhess_head_error_sound :
+  forall (R : comRingType) (F : numDomainType) (M : round_model R F)
+         (fset : R -> R) (is0 : R -> bool) (eadd emul : F -> F -> F) (nrm : R -> F) (eps kap q p : F)
+         (Hl : seq R) (m : nat) (s : R),
+    (forall x, rm_N M (fset x - x) <= rm_es M * rm_N M x) ->
+    (forall z, is0 z -> z = 0) ->
+    0 <= eps -> 0 <= kap -> 0 <= q -> q <= 1 -> 0 <= p ->
+    (forall x y, 0 <= x -> 0 <= y -> q * (x + y) <= eadd x y) ->
+    (forall x y, 0 <= x -> 0 <= y -> q * (x * y) <= emul x y) ->
+    (forall z, q * rm_N M z <= nrm z) ->
+    rm_es M <= kap * (1 - rm_es M) ->
+    p * (1 + kap) <= q ^+ 7 ->
+    rm_em M + kap <= p ^+ m.+1 * eps ->
+    let r := @mhess_head R F (flops M) fset is0 eadd emul 0 eps nrm Hl m.+1 s in
+    rm_N M (r.1 - hess_rec (rops R) Hl m.+1 s) <= r.2.
+Proof. exact: mhess_head_sound. Qed.
+Print Assumptions C20_mhess_head_error_sound.
+
+(* explicit drift: every bound operation returns at least (1 - d) times the exact value (rdpe_t: d = 2^-49 is
+   ample), kap <= d, 8 n d <= 1 (n <= 2^46) and em + kap <= (1 - 8 n d) eps; against the determinant *)
+Theorem C20_mhess_head_error_det :
+  forall (R : comRingType) (F : numDomainType) (M : round_model R F)
+         (fset : R -> R) (is0 : R -> bool) (eadd emul : F -> F -> F) (nrm : R -> F) (eps kap d : F)
+         (m : nat) (H : 'M[R]_m.+1) (Hl : seq R) (s : R),
+    upper_hessenberg H -> row_major Hl H ->
+    (forall x, rm_N M (fset x - x) <= rm_es M * rm_N M x) ->
+    (forall z, is0 z -> z = 0) ->
+    0 <= eps -> 0 <= kap -> kap <= d -> 8%:R * m.+1%:R * d <= 1 ->
+    (forall x y, 0 <= x -> 0 <= y -> (1 - d) * (x + y) <= eadd x y) ->
+    (forall x y, 0 <= x -> 0 <= y -> (1 - d) * (x * y) <= emul x y) ->
+    (forall z, (1 - d) * rm_N M z <= nrm z) ->
+    rm_es M <= kap * (1 - rm_es M) ->
+    rm_em M + kap <= (1 - 8%:R * m.+1%:R * d) * eps ->
+    let r := @mhess_head R F (flops M) fset is0 eadd emul 0 eps nrm Hl m.+1 s in
+    rm_N M (r.1 - \det (H - s%:M)) <= r.2.
+Proof.
+move=> R F M fset is0 eadd emul nrm eps kap d m H Hl s uh rm; rewrite -(hess_rec_is_det s uh rm).
+exact: mhess_head_sound_delta.
+Qed.
+Print Assumptions C20_mhess_head_error_det.
+
+(* satisfiable, and both branches of the copy run: exact copy / subtraction, products off by a factor 2
+   (em = 1, es = 0, eps = 1, kap = 0, q = p = 1): shift 1 gives (704, 4877) for the exact value 176, shift 0
+   (the mpc_set branch on the diagonal) gives (688, 5682) for the exact value 172 *)
+Example C20_mhess_head_nonvacuous :
+  (@mhess_head int int (flops toy_model2) id (fun z => z == 0) +%R *%R 0 1 (fun x => `|x|) L3h 3 1 = (704, 4877))
+  * (hess_rec (rops _) L3h 3 1 = 176)
+  * (@mhess_head int int (flops toy_model2) id (fun z => z == 0) +%R *%R 0 1 (fun x => `|x|) L3h 3 0 = (688, 5682))
+  * (hess_rec (rops _) L3h 3 0 = 172).
+Proof. exact: toy_head_values. Qed.
